@@ -78,8 +78,8 @@ func cmdVerify(args []string) {
 		os.Exit(2)
 	}
 	pre := ""
-	if *prelude != "" {
-		for _, f := range strings.Split(*prelude, ",") {
+	{
+		for _, f := range append([]string{"/verif/spec/common.smt2"}, strings.Split(*prelude, ",")...) {
 			b, err := os.ReadFile(f)
 			if err != nil {
 				fmt.Fprintln(os.Stderr, err)
